@@ -98,7 +98,7 @@ rec: $(B)/rec_sim
 
 # ---------------------------------------------------------------- reent engine (C16): -O0, trace-loads/stores, no ASan
 REENTB := $(B)/reent
-REENT_REPO_CFLAGS := $(REPO_CFLAGS_COMMON) -O0 -fsanitize-coverage=trace-pc-guard,pc-table,trace-loads,trace-stores
+REENT_REPO_CFLAGS := $(REPO_CFLAGS_COMMON) -O0 -fno-builtin -fsanitize-coverage=trace-pc-guard,pc-table,trace-loads,trace-stores
 REENT_LIB_OBJS := $(patsubst $(REPO)/src/avtp/%.c,$(REENTB)/lib/%.o,$(LIB_SRCS))
 $(REENTB)/lib/%.o: $(REPO)/src/avtp/%.c $(REPO_HDRS) Makefile | dirs
 	@mkdir -p $(dir $@)
